@@ -130,6 +130,28 @@ def run(prog, rep, tier='quick', config='default'):
         pushes = [x for x in f.calls if x.short == 'push' and 'broker_tx::BrokerTx' in f.ty.get(x.arg_local(0), '') and f.dominates(x.bb, c.bb)]
         k = '%s|foreign-trade-always-gets-its-fx-leg#%d' % (f.name.split('::{')[0], n_s)
         if not pushes:
+            # the other order: the FX leg is added first, then the row is recorded. Every path to the push must have passed the
+            # add_implicit_fxt call or the "currency is CAD" edge.
+            later = [x for x in f.calls if x.short == 'push' and 'broker_tx::BrokerTx' in f.ty.get(x.arg_local(0), '') and f.reaches(c.bb, x.bb)]
+            cad_edges = set()
+            for i in f.blocks:
+                e = f.bool_switch_edges(i)
+                if e is None:
+                    continue
+                d = mir.provenance(f, f.blocks[i]['term']['discr'], pass_through={'deref', 'borrow', 'as_ref', 'clone'})
+                if d.calls and all(x.short in ('is_default', 'deref', 'borrow', 'as_ref', 'clone') for x in d.calls) and \
+                        any(x.short == 'is_default' and 'Currency' in f.ty.get(x.arg_local(0), '') for x in d.calls):
+                    flipped = any(op == 'Not' for op, _ in d.unops)
+                    cad_edges.add((i, e[1] if flipped else e[0]))
+            if later:
+                reach = f.reachable_avoiding_edges(0, cad_edges | {(p_, c.bb) for p_ in f.pred[c.bb]})
+                if all(x.bb not in reach for x in later):
+                    rep.ok('R18d', k, where=c.where(), fn=f.name,
+                           detail='the row is recorded only after add_implicit_fxt or on the "currency is CAD" edge (FX leg first, then the row)')
+                else:
+                    rep.violation('R18d', k, where=later[0].where(), fn=f.name,
+                                  detail='a trade row can be recorded on a path that neither adds its implicit FX leg nor tests that its currency is CAD')
+                continue
             rep.violation('R18d', k, where=c.where(), fn=f.name, detail='anchor lost: the trade row is not recorded before its FX leg is added')
             continue
         base = {(sbb, tuple(vals or ()), tuple(neg or ())) for (sbb, d, vals, neg) in f.conditions_at(pushes[-1].bb)}
